@@ -139,6 +139,17 @@ def run_laws(case, r):
                         r.check(sw.exc is None and abs(sw.distance - w * d) <= 1e-8 * max(1.0, abs(w * d)), f"C05/scaling-weight/{method}", "a constant cell weight w scales the distance by w", w=w, d=d, d_weighted=None if sw.exc else sw.distance, cfg=tag)
                     else:
                         r.check(sw.exc is None and sw.distance >= w * fm * (1 - 1e-9) - 1e-12, f"C05/scaling-weight/{method}", "with a constant cell weight w the distance is at least w times the first-moment bound", w=w, d_weighted=None if sw.exc else sw.distance, cfg=tag)
+            # homogeneity also for very small masses, in every L1 / mobility mode: regularisation
+            # floors are meant to act at rounding level, not at the scale of small data
+            if len(mode_list) > 1:
+                for k in (20, 30):
+                    c = 2.0**-k
+                    oc = dict(o)
+                    if c04.mname(method) == "bregman":
+                        oc["L"] = c
+                    sc = dist(method, shape, vs, c * a, c * b, oc)
+                    tolh = 1e-8 if c04.mname(method) == "newton" else 1e-6
+                    r.check(sc.exc is None and abs(sc.distance - c * d) <= tolh * abs(c * d), f"C05/scaling-mass/{method}/{mob}/tiny", "d(c a, c b) = c d(a, b) for c = 2^-20, 2^-30", c=f"2^-{k}", d=d, d_scaled_over_c=None if sc.exc else sc.distance / c, cfg=tag)
             # constant weight with all other options (also the Bregman penalty) unchanged, in every
             # L1 / mobility mode: the distance is multiplied by the weight
             if len(mode_list) > 1 or (l1, mob) == modes[0]:
